@@ -52,7 +52,7 @@ STATE_KINDS = ("st_set", "st_get", "st_get_state", "st_set_state", "st_clear", "
 
 def plan(tier, seed):
     n = 16 if tier == "quick" else 64
-    per = 250 if tier == "quick" else 3000
+    per = 160 if tier == "quick" else 2000
     return [{"seed": seed * 1000 + i, "n": per} for i in range(n)]
 
 
@@ -396,13 +396,13 @@ def run_case(case, acc, base_dir, idx):
             if ra != rb:
                 witness = {"ops": case["ops"][: i + 1]}
                 closed = isinstance(ea, sqlite3.ProgrammingError) and "closed" in str(ea).lower()
-                if closed and rb[0] == "ok":
+                if closed:
                     closer = {"st_seed_memory": "create_state_store_seed_in_memory",
                               "st_seed_copy": "create_state_store_seed_copy"}.get(
                                   closed_after, "state_store_operation" if closed_after in STATE_KINDS else "other")
                     acc.violation({"mech": "shared_connection_closed", "closed_by": closer},
                                   f"single_connection=True: {k} raised sqlite3.ProgrammingError('{ea}'); the shared connection "
-                                  f"was closed during {closed_after}; per-call store returned {_short(rb[1])}", witness)
+                                  f"was closed during {closed_after}; per-call store gave {_short(rb)}", witness)
                 elif ra[0] == "exc" or rb[0] == "exc":
                     acc.violation({"mech": "exception_mismatch", "op": k,
                                    "single": ra[1] if ra[0] == "exc" else "ok", "per_call": rb[1] if rb[0] == "exc" else "ok"},
